@@ -194,6 +194,7 @@ def run(module, cfg=None, *, env=None, workers=1, scratch=None, timeout=3600, si
     cfg = cfg or module
     cmd = ['java', '-Xmx' + heap, '-Xss256m', '-XX:+UseParallelGC']
     cmd += ['-XX:ParallelGCThreads=%d' % (1 if workers == 1 else 4)]
+    cmd += ['-Djava.io.tmpdir=' + meta]      # TLC drops an empty tlc-<n> directory per run into java.io.tmpdir: keep it inside the scratch
     if depth_first:
         cmd += ['-Dtlc2.tool.queue.IStateQueue=StateDeque']
     cmd += ['-cp', JAR + ':' + DEPS, 'tlc2.TLC', '-workers', str(workers), '-metadir', meta,
